@@ -5,6 +5,7 @@ from ..core import AnalysisError, src, qualname_of, enclosing_function
 from ..pysym import SymExec, show, subterms, str_parts
 from ..rules_pyx import N, C, A
 from .. import codec
+from .. import logic
 
 EXPLANATION = (
     'R7.1 conll head assignment: symbolic paths of _resolve_dependencies.rec show the mirror pair "head_is_left: '
@@ -60,7 +61,14 @@ def r_conll_heads(repo, rep, R='R7.1'):
         sets = [(e[2], e[3]) for e in st.events if e[0] == 'setitem' and e[1] == N('results')]
         apps = [e[1][2] for e in st.events if e[0] == 'call' and e[1][1] == A(N('results'), 'append')]
         if (A(N(p), 'is_leaf'), True) in conds:
-            ok = apps == [(C(-1),)] and st.ret == ('call', N('len'), (N('results'),), ()) and not sets
+            # the index of the new entry: len(results) read before the append, or len(results) - 1 read after it
+            LEN = ('call', N('len'), (N('results'),), ())
+            i_len = [i for i, e in enumerate(st.events) if e[0] == 'call' and e[1] == LEN]
+            i_app = [i for i, e in enumerate(st.events) if e[0] == 'call' and e[1][1] == A(N('results'), 'append')]
+            idx_ok = len(i_len) == 1 and len(i_app) == 1 and (
+                (st.ret == LEN and i_len[0] < i_app[0]) or
+                (st.ret == ('binop', '-', LEN, C(1)) and i_len[0] > i_app[0]))
+            ok = apps == [(C(-1),)] and idx_ok and not sets
             got['leaf'] = ok
             rep.check(ok, R, w, 'resolve:leaf', 'a leaf takes the next index, is provisionally marked as root (-1) and returns its index',
                       'leaf path: appends %s, returns %s' % (apps, show(st.ret) if st.ret else None))
@@ -83,8 +91,28 @@ def r_conll_heads(repo, rep, R='R7.1'):
                           'right-headed path: stores %s, returns %s, visit order %s' % ([(show(a), show(b)) for a, b in sets], show(st.ret) if st.ret else None, st.data.get('order')))
     rep.check(set(got) == {'leaf', 'unary', 'left', 'right'}, R, w, 'resolve:cases', 'leaf / unary / left-headed / right-headed cases are all present',
               'cases found: %s' % sorted(got))
-    asserts = [src(a.test).replace(' ', '').replace('\n', '') for a in outer.body if isinstance(a, ast.Assert)]
-    ok = any('==-1' in a and a.endswith('==1') for a in asserts)
+    ok = False
+    R_ = N('results')
+    for st, o in SymExec(outer, unroll=1, no_inline=(rec.name,)).run():
+        if o != 'return':
+            continue
+        res = st.ret
+        for e in st.events:
+            if e[0] != 'assert':
+                continue
+            f = logic.formula(e[1])
+            if f[0] != 'atom' or f[1][0] != 'eq' or C(1) not in f[1][1:]:
+                continue
+            cnt = [x for x in f[1][1:] if x != C(1)][0]
+            # number of entries still -1: len([.. if d == -1]) / sum(1 for .. if d == -1) / results.count(-1)
+            if cnt == ('call', A(res, 'count'), (C(-1),), ()):
+                ok = True
+            if cnt[0] == 'call' and cnt[1] in (N('len'), N('sum')) and len(cnt[2]) == 1 and cnt[2][0][0] in ('listcomp', 'genexp') and len(cnt[2][0][2]) == 1:
+                it, filt = cnt[2][0][2][0]
+                if it == res and len(filt) == 1:
+                    ff = logic.formula(filt[0])
+                    ok = ok or (ff[0] == 'atom' and ff[1][0] == 'eq' and C(-1) in ff[1][1:] and any(x[0] == 'elem' and x[1] == it for x in ff[1][1:])
+                                and (cnt[1] == N('len') or cnt[2][0][1] == C(1)))
     rep.check(ok, R, '%s:%s _resolve_dependencies' % (CONLL, outer.lineno), 'resolve:one-root', 'exactly one word keeps the root marker (asserted)',
               'there is no assertion that exactly one dependency stays -1')
     crec = mod.get('conll_of.rec')
